@@ -166,7 +166,7 @@ func (c *context) RecvMsg() (*protocol.Message, error) {
 	s := c.s
 
 	s.Lock()
-	if s.closed {
+	if s.closed || c.closed {
 		s.Unlock()
 		return nil, protocol.ErrClosed
 	}
